@@ -177,7 +177,7 @@ func RunProgram(ctx context.Context, db *sql.DB, p gen.Program, o *Obs) error {
 		if err != nil {
 			sr.Err = err.Error()
 			o.Steps = append(o.Steps, sr)
-			if tx != nil {
+			if tx != nil && !(p.ContinueOnError && p.KeepTx) {
 				tx.Rollback()
 				tx = nil
 				cur = 0
